@@ -232,9 +232,14 @@ let gen_valid r (k : int) =
           valid r ~tag:(if kf = None then "numrange_nobounds" else "numrange") ?kf 3906 (exp_numrangeX f lo hi)
             (enc_numrange (zi 3906) f lo hi)
   | 44 -> (* dispatch to the array decoder (C07): the payload bytes and the element oid are handed over unchanged *)
-          let (aoid, eoid) = pick r [| (1007, 23); (1009, 25); (1016, 20); (1231, 1700); (3807, 3802); (1000, 16); (1182, 1082);
-                                       (1115, 1114); (2951, 2950); (1041, 869); (3905, 3904); (1021, 700); (1005, 21) |] in
-          let p = int4_array_payload r in
+          let (aoid, eoid, fixed) = pick r [| (1007, 23, true); (1009, 25, false); (1016, 20, true); (1231, 1700, false); (3807, 3802, false);
+                                              (1000, 16, true); (1182, 1082, true); (1115, 1114, true); (2951, 2950, true); (1041, 869, false);
+                                              (3905, 3904, false); (1021, 700, true); (1005, 21, true) |] in
+          let p = if fixed then int4_array_payload r
+            else (* one element with a short (1-byte) varlena header *)
+              let body = rbytes r (rrange r 1 6) in
+              bytes_of_za 4 (zz 1) @ bytes_of_za 4 (zz 0) @ bytes_of_za 4 (zz eoid) @ bytes_of_za 4 (zz 1) @ bytes_of_za 4 (zz 1)
+              @ [ byte_of_int (((1 + List.length body) lsl 1) lor 1) ] @ body in
           run ~tag:"array_dispatch" ~s:(Printf.sprintf "@@arr:%d:%s" eoid (hex_of_bytes p)) aoid p []
   | 45 -> let d = rbytes r (pick r [| 2; 4; 6; 8; 10 |]) in
           run ~tag:"numeric_dispatch" ~s:("@@num:" ^ hex_of_bytes d) 1700 d []
@@ -259,7 +264,11 @@ let gen_malformed r (k : int) =
     let oid = all_oids.(k / 12 mod Array.length all_oids) in
     let w = fixed_len oid in
     let n = if w = 0 then pick r [| 1; 2; 3; 5; 9; 40 |] else max 0 (pick r [| 1; w - 1; w; w + 1; w / 2; 2 * w |]) in
-    go ~tag:(Printf.sprintf "len_%s" (if n < w then "short" else if n = w then "exact" else "long")) oid (rbytes r n)
+    let b = rbytes r n in
+    (* money: keep the stored cents within the range where float64(cents)/100 prints exactly (|c| < 2^49) *)
+    let cents = bytes_of_za 8 (ZA.logand (ZA.sub (rbits r 50) (pow2 49)) (ZA.pred (pow2 64))) in
+    let b = if oid = 790 then List.mapi (fun i x -> if i < 8 then List.nth cents i else x) b else b in
+    go ~tag:(Printf.sprintf "len_%s" (if n < w then "short" else if n = w then "exact" else "long")) oid b
   | 2 -> (* inet: every length x family *)
     let n = pick r [| 1; 2; 3; 5; 6; 7; 8; 9; 12; 17; 18; 19; 20; 21; 24 |] in
     let b = rbytes r n in
